@@ -183,6 +183,7 @@ fn cmd_conc(args: &[String]) {
     let mut samples = Vec::new();
     let mut found = 0u64;
     let mut distinct_histories = std::collections::HashSet::<u64>::new();
+    let mut hb = (0u64, 0u64, 0u64);
     for pi in 0..n {
         let mut prng = rng.fork();
         let kind = kinds[(pi % kinds.len() as u64) as usize];
@@ -198,6 +199,9 @@ fn cmd_conc(args: &[String]) {
             let opts = RunOpts { policy: Policy::Random(types::SplitMix64(sseed), stick), step_limit: 200_000, freeze: None };
             let r = with_hasher!(prog.hasher, S, { run_program::<S>(&prog, opts) });
             runs += 1;
+            hb.0 += r.hb_stats.0;
+            hb.1 += r.hb_stats.1;
+            hb.2 += r.hb_stats.2;
             steps += r.steps;
             lock_waits += r.lock_waits;
             parks += r.parks;
@@ -257,7 +261,8 @@ fn cmd_conc(args: &[String]) {
         "JSON {}",
         json!({"coq_histories": coq_hist, "runs": runs, "steps": steps, "lock_waits": lock_waits, "parks": parks, "reclaimed_blocks": reclaimed,
                "resizes": resizes, "resize_helpers": helped, "distinct_nontrivial": nontrivial.len(),
-               "distinct_histories": distinct_histories.len(), "verdicts": verdicts, "found": found, "samples": samples})
+               "distinct_histories": distinct_histories.len(), "verdicts": verdicts, "found": found, "samples": samples,
+               "hb_derefs_checked": hb.0, "hb_cross_thread_derefs": hb.1, "hb_acquire_joins": hb.2})
     );
 }
 
